@@ -498,6 +498,101 @@ def restore(snap):
             pass
 
 
+def check_class_level_scenarios(ctx):
+    """state that lives on a class: (a) a report formatter whose class adds formats of its own to `available`; (b) a feedback class
+    with constant fields, constructed again and again with different fields of the call - every message is made of the class's
+    constants and THIS call's fields only"""
+    from pedal.core.feedback import Feedback
+    from pedal.core.formatting import Formatter
+    from pedal.core.commands import clear_report
+    from pedal.core.report import MAIN_REPORT
+    rng = ctx.rng
+
+    class KeyFormatter(Formatter):
+        available = list(Formatter.available) + ['key', 'shout']
+
+        def key(self, value):
+            return '[key %s]' % (value,)
+
+        def shout(self, value):
+            return str(value).upper() + '!'
+
+        def name(self, name):
+            return '<%s>' % (name,)
+
+    clear_report()
+    report = MAIN_REPORT
+    report.format = KeyFormatter()
+    for t in range(ctx.pick(40, 400)):
+        fields = {'k': rng.choice(['enter', 'esc', 'x']), 'n': rng.choice(['total', 'i'])}
+        template = ''.join(rng.choice(['press {k:key} ', '{k:>8:shout} ', 'the {n:name} ', '{k:shout}{n:key}', '{k} ', '{n:<6:name}|']) for _ in range(rng.randint(1, 4)))
+        want = expected_render(template, fields, report.format)
+        case = {'scenario': 'formatter-with-own-formats', 'template': template, 'fields': fields}
+        n0 = len(report.feedback)
+        try:
+            fb = Feedback(label='own_formats', message_template=template, fields=dict(fields))
+        except Exception as e:
+            ctx.violation('C20|constructor-raised|%s|formatter-with-own-formats' % type(e).__name__, case, traceback.format_exc()[-400:])
+            continue
+        ctx.count('renderings_compared')
+        ctx.count('renderings_with_formats_the_formatter_class_added')
+        ctx.case('own-format:' + template + repr(sorted(fields.items())))
+        if fb.message != want or not any(x is fb for x in report.feedback[n0:]):
+            ctx.violation('C20|message-differs|formatter-with-own-formats', case, 'expected %r, got %r (triggered list: %s)' % (want, fb.message, any(x is fb for x in report.feedback[n0:])))
+    # (b)
+    report.format = Formatter()
+    constants = {'label_text': 'const', 'const_value': 1}
+
+    class with_constants(Feedback):
+        title = 'With constants'
+        message_template = 'Template for {label_text} ({const_value!r}) and {who}'
+        constant_fields = dict(constants)
+
+    history = []
+    for t in range(ctx.pick(60, 600)):
+        how = rng.choice(['kw', 'kw', 'fields', 'none', 'location-only'])
+        who = rng.choice(['first', 'second', 'third', 'x%d' % t])
+        history.append((how, who))
+        case = {'scenario': 'class-with-constant-fields', 'history': history[-6:]}
+        n0, i0 = len(report.feedback), len(report.ignored_feedback)
+        raised = fb = None
+        try:
+            if how == 'kw':
+                fb = with_constants(who=who)
+            elif how == 'fields':
+                fb = with_constants(fields={'who': who})
+            elif how == 'location-only':
+                fb = with_constants(location=3)
+            else:
+                fb = with_constants()
+        except BaseException as e:
+            raised = e
+        ctx.count('constructions_of_a_class_with_constant_fields')
+        ctx.case('const:' + repr(history[-3:]))
+        if with_constants.constant_fields != constants:
+            ctx.violation('C20|class-constants-changed-by-a-construction', case, 'constant_fields is now %r' % (with_constants.constant_fields,))
+        if how in ('kw', 'fields'):
+            want = 'Template for const (1) and %s' % who
+            if raised is not None:
+                ctx.violation('C20|constructor-raised|%s|class-with-constant-fields' % type(raised).__name__, case, repr(raised)[:200])
+            elif fb.message != want or not any(x is fb for x in report.feedback[n0:]):
+                ctx.violation('C20|message-differs|class-with-constant-fields', case, 'expected %r, got %r' % (want, fb.message))
+        else:
+            # the template needs a field this call did not give: evaluating the message raises -> untriggered, error status, and the
+            # exception reaches the caller
+            ctx.count('error_paths_observed')
+            if raised is None:
+                ctx.violation('C20|message-error-not-raised|class-with-constant-fields', case,
+                              'the call gave no {who}; delivered %r' % (getattr(fb, 'message', None),))
+            elif not isinstance(raised, KeyError):
+                ctx.violation('C20|constructor-raised|%s|class-with-constant-fields' % type(raised).__name__, case, repr(raised)[:200])
+            if len(report.feedback) != n0:
+                ctx.violation('C20|errored-feedback-on-triggered-list|class-with-constant-fields', case, [f.label for f in report.feedback[n0:]])
+        if t % 50 == 49:
+            clear_report()
+            history.append(('clear', None))
+
+
 def run(ctx):
     import_everything()
     from monitors import feedback_mon
@@ -509,6 +604,7 @@ def run(ctx):
     snap = snapshot_classes()
     feedback_mon.install(ctx, 'C20')
     run_constructions(ctx, ctx.pick(400, 12000))
+    check_class_level_scenarios(ctx)
     run_overrides(ctx, ctx.pick(60, 2500), snap, targets)
 
 
@@ -518,7 +614,9 @@ def replay(ctx, case):
     targets = override_targets()
     snap = snapshot_classes()
     feedback_mon.install(ctx, 'C20')
-    if 'sequence' in case:
+    if case.get('scenario') in ('formatter-with-own-formats', 'class-with-constant-fields'):
+        check_class_level_scenarios(ctx)
+    elif 'sequence' in case:
         check_override_sequence(ctx, [tuple(s) for s in case['sequence']], dict(targets), snap)
     else:
         # constructions are replayed by re-running the generator on a small budget (cases are not self-contained objects)
